@@ -157,6 +157,9 @@ def project_sig(model_classes, apps_order=None):
     for (app, _n), cls in model_classes.items():
         by_app.setdefault(app, []).append(cls)
     for app in (apps_order or by_app):
+        if not by_app.get(app):
+            # an app without models has no entry (as for a real project)
+            continue
         asig = AppSignature(app_id=app)
         for cls in by_app.get(app, []):
             asig.add_model(cls)
@@ -195,6 +198,13 @@ def column_of(fname, fdef):
 def m2m_table(spec, app, mname, fname, fdef):
     return fdef.get('db_table') or '%s_%s' % (model_table(spec, app, mname),
                                               fname)
+
+
+def m2m_columns(app, mname, to_app, to_model):
+    """Column names Django gives the two FK columns of an auto M2M table."""
+    if (to_app, to_model) == (app, mname):
+        return ('from_%s_id' % mname.lower(), 'to_%s_id' % mname.lower())
+    return ('%s_id' % mname.lower(), '%s_id' % to_model.lower())
 
 
 def owned_tables(spec, app, mname):
